@@ -365,8 +365,10 @@ func httpSetup() {
 		httpErr = vh.Failf("harness/http-handler", "cannot build the server handler: %v", err)
 		return
 	}
-	httpHandler, httpPids = h, pids
+	httpHandler, httpPids, httpApp = h, pids, app
 }
+
+var httpApp *generator.App
 
 func runHTTP(c Case, o *vh.Obs) *vh.Failure {
 	if len(c.Clients) < 2 {
@@ -467,6 +469,29 @@ func runHTTP(c Case, o *vh.Obs) *vh.Failure {
 	m.Init = func() interface{} { return init }
 	if !porcupine.CheckOperations(m, hist) {
 		return vh.Failf("http/not-linearizable", "no sequential order consistent with real time explains this history of HTTP requests:\n%s", describe())
+	}
+	// every edit request saves the graph before it answers (autosave). Once all requests have returned
+	// the file on disk must therefore be the save of the present graph: a stale snapshot written last
+	// would silently lose an acknowledged edit the next time the file is opened.
+	updates := 0
+	for _, h := range hist {
+		if h.Input.(linIn).kind == 0 {
+			updates++
+		}
+	}
+	if updates > 0 {
+		onDisk, err := os.ReadFile(fmt.Sprintf("autosave_%d.json", vh.Shard))
+		if err != nil {
+			return vh.Failf("http/autosave-missing", "autosave is on and %d edits were acknowledged, but the file cannot be read: %v", updates, err)
+		}
+		if want := httpApp.Schema(); !bytes.Equal(onDisk, want) {
+			o.Class("http/autosave-compared")
+			return vh.Failf("http/autosave-stale", "all %d requests have returned, yet the autosaved file (%d bytes) is not the save of the present graph (%d bytes): an acknowledged edit is missing from it\nhistory:\n%s", len(hist), len(onDisk), len(want), describe())
+		}
+		o.Class("http/autosave-compared")
+		if updates >= 3 {
+			o.Class("http/autosave-compared/3-or-more-edits")
+		}
 	}
 	return nil
 }
